@@ -32,6 +32,29 @@ def gen_case(rng, tier, i):
         spec = kmodels.gen_spec(rng, ncomp=(2, 4), sizes=(1, 2, 3), coupled=coupled, nl_iters=60)
     if not spec.get('coupled'):
         spec['solvers'] = {}
+    # features around the automatically created sources and the stored form of a case
+    free = {}
+    for comp in spec['comps']:
+        for v in comp['ins']:
+            nm = kmodels.prom_name(comp, v, 'in')
+            if nm in spec['init']:
+                free[nm] = (comp, v)
+    if not lagging and rng.random() < 0.5:
+        # inputs in cm whose promoted name has defaults in m (the source is then in m)
+        for nm, (comp, v) in free.items():
+            if rng.random() < 0.7:
+                comp.setdefault('units', {})[v] = 'cm'
+                if v in comp['prom_in'] and rng.random() < 0.8:
+                    spec.setdefault('input_defaults', {})[nm] = {'units': rng.choice(['m', 'mm'])}
+    if rng.random() < 0.4:
+        # solver scaling of outputs: system and solver cases are recorded while the vectors are scaled
+        for comp in spec['comps']:
+            for o in comp['outs']:
+                if rng.random() < 0.6:
+                    comp.setdefault('ref', {})[o] = rng.choice([[100.0, 0.0], [0.5, 0.0], [10.0, 1.0], [3.0, -2.0]])
+    if not lagging and rng.random() < 0.3:
+        spec['discrete'] = True
+        spec['init']['u_d'] = [rng.choice([-1, 0.5, 2, 3])]
     dvs = spec['dvs']
     n = spec['comps'][0]['n']
     dtype = rng.choice(['none', 'doe']) if dvs else 'none'
@@ -54,7 +77,10 @@ def gen_case(rng, tier, i):
         nm = rng.choice(ins + outs)
         k = rng.randrange(1, len(nm))
         partial = rng.choice([[nm[:k] + '*'], ['*' + nm[k:]], [nm], ['*.' + nm.rsplit('.', 1)[1]], []])
+    gpaths = sorted({cc['path'].rsplit('.', 1)[0] for cc in spec['comps'] if '.' in cc['path']})
+    subrec = [g for g in gpaths if rng.random() < 0.5]
     return {'spec': spec, 'driver': driver, 'runs': runs, 'partial': partial, 'lagging': lagging,
+            'sub_recorders': subrec,
             'ncases': (6 if lagging else 4) if tier == 'quick' else 8,
             'seed': rng.randrange(10 ** 6)}
 
@@ -83,8 +109,10 @@ def got_want(res):
 
 
 RULE = ('generated models (2-4 components: explicit feed-forward incl. implicit components with their own solve, and '
-        'every fourth one coupled and converged) x run sequences (run_model with changed inputs, DOE, Problem.record) '
-        'recorded on problem (complete or include-pattern partial), driver and root system x sampled cases loaded '
+        'every fourth one coupled and converged; inputs in units other than their promoted defaults, outputs with '
+        'ref/ref0 scaling, a discrete component, groups overriding load_case) x run sequences (run_model with changed inputs, DOE, Problem.record) '
+        'recorded on problem (complete or include-pattern partial), driver, root system, sub-groups (group-relative '
+        'promoted names) and solvers x sampled cases loaded '
         'into a fresh or a dirty (other inputs, already run) problem; an evaluation is one loaded case')
 
 ASSUMPTIONS = [
